@@ -96,7 +96,7 @@ def random_case(rng, tier):
                 ref, tag = rng.choice(persisted), None
             else:
                 ref = rng.choice(made) if made and rng.random() < 0.85 else 'unknown'
-                tag = rng.choice([None, None, None, 'mid', 'other'])
+                tag = rng.choice([None, None, None, 'mid', 'other', 0, ''])
             ops.append(['continue', ref, tag, rng.random() < 0.4])
         elif roll < 0.78:
             ops.append(['execute', prog_i, rng.random() < 0.4])
@@ -104,11 +104,11 @@ def random_case(rng, tier):
             ops.append(['bogus'])
         elif roll < 0.95:
             if held:
-                ref, tag = rng.choice(held), rng.choice(['mid', 'mid', 'other'])
+                ref, tag = rng.choice(held), rng.choice(['mid', 'mid', 'other', 0, ''])
                 ops.append(['snapshot', ref, tag])
                 snaps.append((ref, tag))
             elif made:
-                ops.append(['snapshot', rng.choice(made), rng.choice(['mid', 'other'])])
+                ops.append(['snapshot', rng.choice(made), rng.choice(['mid', 'other', 0, ''])])
         else:
             ops.append(['restart'])
     if rng.random() < 0.3 and persister != 'none':
@@ -121,7 +121,7 @@ def random_case(rng, tier):
             {'async': False, 'awaits': [], 'effects': [[{'e': 'out', 'k': 'b', 'v': 2}]], 'ret': {'t': 'value', 'v': 'done'}}]}
         progs.append(waity)
         base = len(ops)
-        tag = rng.choice(['mid', 'other'])
+        tag = rng.choice(['mid', 'other', 0, ''])  # falsy tags are tags too
         scenario = [['launch', len(progs) - 1, rng.random() < 0.5, True, 'tagged-pid'], ['snapshot', base, tag]]
         if rng.random() < 0.4:
             scenario.append(['restart'])
